@@ -107,6 +107,67 @@ def sweep(ctx, L, do_model=True):
                     one_case(ctx, layout, a, b, do_model)
 
 
+def chain(ctx, layout, ops, copies, do_model=True):
+    """several deletions one after the other on ONE object (optionally through copy() and len() in between): each step
+    must be the deletion of the given range from what the object held just before"""
+    obj = mk(layout)
+    case = dict(layout=enc_bools(layout), ops=[list(o) for o in ops], copies=list(copies), chain=True)
+    for i, (a, b) in enumerate(ops):
+        snap_p, snap_r = list(obj.parts), list(obj.reducible)
+        n = sum(1 for r in snap_r if r)
+        a2, b2 = clamp_spec(a, n, 0), clamp_spec(b, n, n)
+        if a2 > b2:
+            return
+        try:
+            if copies[i] == 1:
+                obj = obj.copy()
+            elif copies[i] == 2:
+                len(obj)
+            obj.rmslice(a, b)
+            real = f"ok {enc_list(obj.parts)} {enc_bools(obj.reducible)} {len(obj)}"
+        except Exception as exc:  # pylint: disable=broad-except
+            ctx.fail("raises", f"step {i}: rmslice({a},{b}) raised {type(exc).__name__}: {exc}", case)
+            return
+        exp_p, exp_r = spec_delete(snap_p, snap_r, a2, b2)
+        if obj.parts != exp_p or obj.reducible != exp_r or len(obj) != n - (b2 - a2):
+            ctx.fail("wrong-atoms", f"step {i} of a chain: rmslice({a},{b}) on parts={snap_p} flags={enc_bools(snap_r)} left parts={obj.parts} "
+                     f"flags={enc_bools(obj.reducible)} len={len(obj)}, expected parts={exp_p} flags={enc_bools(exp_r)}", case)
+            return
+        if do_model:
+            ctx.expect("rmslice", f"rmslice {enc_list(snap_p)} {enc_bools(snap_r)} {enc_optint(a)} {enc_optint(b)}", real, case)
+        else:
+            ctx.evaluations += 1
+    ctx.bump("chains")
+    if not all(layout) and any(layout):
+        ctx.nontriv("chain", tuple(layout), tuple(ops), tuple(copies))
+
+
+def chains(ctx, L, count, do_model=True):
+    for k in range(1, L + 1):
+        for layout in itertools.product((True, False), repeat=k):
+            n = sum(layout)
+            pairs = [(a, b) for a in range(0, n + 1) for b in range(a, n + 1)]
+            for (a, b) in pairs:
+                n2 = n - (b - a)
+                for a2 in range(0, n2 + 1):
+                    for b2 in range(a2, n2 + 1):
+                        chain(ctx, layout, [(a, b), (a2, b2)], (0, 0), do_model)
+    rng = ctx.rng
+    for _ in range(count):
+        k = rng.randint(3, 14)
+        layout = tuple(rng.random() < rng.choice((0.4, 0.7, 0.95)) for _ in range(k))
+        n = sum(layout)
+        ops, copies = [], []
+        for _i in range(rng.randint(2, 5)):
+            a = rng.randint(-2, n + 1)
+            b = rng.randint(a, n + 2) if a >= 0 else rng.choice([None, rng.randint(-2, n + 1)])
+            ops.append((a, b))
+            copies.append(rng.choice((0, 0, 1, 2)))
+            a2, b2 = clamp_spec(a, n, 0), clamp_spec(b, n, n)
+            n -= max(0, b2 - a2)
+        chain(ctx, layout, ops, copies, do_model)
+
+
 def randoms(ctx, count, do_model=True):
     rng = ctx.rng
     for _ in range(count):
@@ -127,6 +188,7 @@ def randoms(ctx, count, do_model=True):
 
 def search(ctx):
     """failing-input search: monitors only, on an enlarged space"""
+    chains(ctx, 5, 20000, do_model=False)
     sweep(ctx, 9, do_model=False)
     randoms(ctx, 20000, do_model=False)
 
@@ -137,6 +199,8 @@ def run(ctx) -> int:
     sweep(ctx, L)
     ctx.exhaustive.append(f"all layouts of length <= {L} x all (a,b) in [-len-2, len+2] u {{None}}")
     randoms(ctx, 60000 if ctx.thorough else 20000)
+    chains(ctx, 5 if ctx.thorough else 4, 20000 if ctx.thorough else 4000)
+    ctx.exhaustive.append("every pair of consecutive deletions on one object for all layouts of length <= 4 (quick) / 5 (thorough)")
     return common.decide(ctx, proof, RULE, search=search,
                          assumptions=["'a copy is independent' is a statement about Python aliasing: a pure model makes it true by construction, so that clause rests on the monitor of this run alone"])
 
